@@ -22,7 +22,7 @@ type pruneCase struct {
 	Mode      int // 0 RemoveUninteresting, 1 Prune(anchored rx), 2 driver -proto (drop_frames inside the profile), 3 PruneFrom, 4 driver -prune_from, 5 interactive session, "proto >out"
 }
 
-var namePool = []string{"main", "foo", ".foo", "foo(int)", "foo(int, char)", "bar", "ns::(anonymous namespace)::f", "ns::(anonymous namespace)::f(int)", "T::operator()(x)",
+var namePool = []string{"main", "foo", ".foo", "foo(int)", "foo(int, char)", "bar", "ns::(anonymous namespace)::f", "ns::(anonymous namespace)::f(int)", "T::operator()(x)", "ns::(anonymous namespace)::Cmp::operator()(int, int)", "(anonymous namespace)::(anonymous namespace)::g(char)",
 	"T::operator()", "runtime.mallocgc", "runtime.goexit", "malloc", "calloc", "tc_new", "arena_calloc_zeroed", "start_thread", "__clone", "work", ""}
 
 var opts = gen.Opts{Alpha: gen.Plain, MaxSamples: 6, MaxDepth: 5, MaxLines: 3, MinTypes: 1, MaxTypes: 2, AnyIDs: true, NoHugeIDs: true,
